@@ -43,5 +43,5 @@ fn run_shard(ctx: &ShardCtx) {
         max_ops: ctx.tier.pick(30, 80),
         quotes: false,
     };
-    run_lockstep_shard(ctx, "framing", "C13", ctx.tier.pick(150_000, 2_000_000), opts, &["raw", "raw", "raw", "enum", "group"], FLAGS);
+    run_lockstep_shard(ctx, "framing", "C13", ctx.tier.pick(1_500_000, 15_000_000), opts, &["raw", "raw", "raw", "enum", "group"], FLAGS);
 }
